@@ -16,7 +16,7 @@ INFO = dict(
         "files of 0..10 bytes are rejected (pe.find_mz_offset cut to None, justified by per-(size, offset) lemma obligations of the same check; uncut for 0/5/7 bytes)",
         thorough="plaintext 0..13, stubs 0/1/4/7, all op sequences of length <=3, selection of length 4",
     ),
-    outside="stages in which the size relation or the ff ff ff marker also holds at a second offset (ambiguous by construction; "
+    outside="stages in which the size relation or the ff ff ff marker also holds at an offset BEFORE the true one (ambiguous by construction: the self-synchronising decoding makes such a candidate pass the MZ validation; candidates after the true offset are inside the claim; "
     "stated validity predicate of the detection harness); plaintexts longer than the bound; seeking before the first plaintext byte (undefined for the view); writes; "
     "detection on stages whose decoded content does not start with a PE image within 1024 bytes",
     stubs=["io.BytesIO -> pure model", "dissect.cstruct readers -> generated source interpreted, leaves modelled"],
@@ -97,9 +97,16 @@ def scaffold(machine_cells, lfanew=64, extra=0, fill=0x11):
     return dos + gap + [0x50, 0x45, 0, 0] + filehdr + [fill] * extra
 
 
-def h_detect(stublen, marker, good_size, mach):
+def h_detect(stublen, marker, good_size, mach, nonce_fixed=None):
+    """nonce_fixed: None = fully symbolic nonce with the strong validity predicate (single candidate offset);
+    a 4-list with None entries for symbolic bytes = crafted stage with stray candidates AFTER the true offset
+    (e.g. a nonce beginning ff ff ff), for which only candidates before the true offset are excluded"""
+    strict = nonce_fixed is None
+
     def body(ctx):
         nonce = sym_bytes("nonce", 4)
+        if nonce_fixed is not None:
+            nonce = SymBytes([c if f is None else f for c, f in zip(nonce.cells, nonce_fixed)])
         m = sym_bytes("machine", 2)
         ctx.assume(m.eq(bytes.fromhex("4c01")) if mach == "x86" else m.eq(bytes.fromhex("6486")))
         plain = SymBytes(scaffold(m.cells))
@@ -114,7 +121,9 @@ def h_detect(stublen, marker, good_size, mach):
         # validity predicate: the hints designate exactly one candidate offset (a stage in which the size relation or
         # the marker also holds at another offset is ambiguous by construction and outside the claim)
         R = len(rawb.cells)
-        for i in range(0, R - 7):
+        # (decoys BEFORE the true offset decode to junk followed by the whole image — the rolling XOR is self-synchronising —
+        # and pass the MZ validation; decoys AFTER it cannot contain the image start and must simply be skipped)
+        for i in range(0, (R - 7) if strict else min(stublen, R - 7)):
             if i == stublen and good_size:
                 continue
             dec = 0
@@ -122,7 +131,7 @@ def h_detect(stublen, marker, good_size, mach):
                 x = z3.simplify(bv(rawb.cells[i + j]) ^ bv(rawb.cells[i + 4 + j]))
                 dec = binop("+", dec, binop("*", SymInt.from_byte(x.as_long() if z3.is_bv_value(x) else x), 1 << (8 * j)))
             ctx.assume(compare("!=", binop("+", dec, i + 8), R))
-        for i in range(0, R - 2):
+        for i in range(0, (R - 2) if strict else min(stublen, R - 2)):
             if marker and i == stublen - 3:
                 continue
             m = rawb.match_at([0xFF, 0xFF, 0xFF], i)
@@ -207,6 +216,13 @@ def instances(tier):
                                 h_detect(stublen, marker, good, mach),
                                 dict(kind="detect", stub=stublen, marker=marker, size_ok=good, machine=mach, cost=10 ** 6),
                                 split=6, max_loop=3000))
+    # crafted stray candidates after the true offset (they fail the MZ validation and must be skipped, not end the search)
+    for stublen, marker, good, nf in ((0, False, True, [0xFF, 0xFF, 0xFF, None]), (4, False, True, [0xFF, 0xFF, 0xFF, None]),
+                                      (5, True, False, [None, 0xFF, 0xFF, 0xFF]), (4, False, True, [0x6F, 0x6F, 0x6F, None])):
+        out.append(Instance("detect stub=%d marker=%s size=%s stray-after nonce=%s" % (stublen, marker, good, nf),
+                            h_detect(stublen, marker, good, "x64", nf),
+                            dict(kind="detect_stray", stub=stublen, marker=marker, size_ok=good, nonce=[("sym" if x is None else x) for x in nf], cost=10 ** 6),
+                            split=6, max_loop=3000))
     for N in (range(0, 11) if q else range(0, 13)):
         # the scan range is a public parameter; offsets beyond the file end all behave alike (EOFError -> continue),
         # so a 48-offset range exercises the same code as the default 1024 at a fraction of the interpretation cost
